@@ -724,3 +724,416 @@ def rule_c18(prog, rep):
     rule_fnv(prog, rep, 'qhashfnv1_64', 0xCBF29CE484222325, 0x100000001B3, 'H4-fnv')
     rule_md5(prog, rep)
     rule_h6(prog, rep)
+
+
+# ======================================================================================================
+# Value-graph comparison (forward substitution, see valgraph.py): robust against helper extraction,
+# statement splitting, macro/enum renaming and switch <-> if-chain rewrites.
+
+from .valgraph import VG, Forward, NotStraight
+
+
+def _top_split(f):
+    """(pre statements, loop statement, post statements) at the top level of the function body"""
+    top = children(f.body)
+    loops = [i for i, st in enumerate(top) if st.get('kind') in ('ForStmt', 'WhileStmt')]
+    if len(loops) != 1:
+        return None
+    i = loops[0]
+    return top[:i], top[i], top[i + 1:]
+
+
+def _is_guard(st):
+    """`if (bad arguments) return ...;` at the top of a function"""
+    if st.get('kind') != 'IfStmt':
+        return False
+    then = st['inner'][1]
+    return any(x.get('kind') == 'ReturnStmt' for x in walk(then)) and len(st['inner']) < 3 or \
+        (st.get('kind') == 'IfStmt' and then.get('kind') == 'ReturnStmt')
+
+
+def _loop_parts(loop):
+    if loop.get('kind') == 'ForStmt':
+        init, _cv, cond, inc, body = loop['inner']
+        return init, cond, inc, body
+    return None, loop['inner'][0], None, loop['inner'][1]
+
+
+def _assigned_keys(node):
+    out = set()
+    for x in walk(node):
+        k = x.get('kind')
+        if (k == 'BinaryOperator' and x.get('opcode') == '=') or k == 'CompoundAssignOperator':
+            p = access_path(children(x)[0])
+            if p:
+                out.add(p)
+        elif k == 'UnaryOperator' and x.get('opcode') in ('++', '--'):
+            p = access_path(children(x)[0])
+            if p:
+                out.add(p)
+    return out
+
+
+def _report_mismatch(rep, rid, f, line, what, vg, got, want):
+    cg, cw = vg.constants(got), vg.constants(want)
+    extra = [c for c in cg if c not in cw]
+    missing = [c for c in cw if c not in cg]
+    hint = ''
+    if extra or missing:
+        def h(xs):
+            out = []
+            for x in xs[:4]:
+                try:
+                    v = eval(x)
+                    out.append(hex(v) if isinstance(v, int) else str(v))
+                except Exception:
+                    out.append(x)
+            return out
+        hint = ' (parameters only in the code: %s; only in the published algorithm: %s)' % (h(extra), h(missing))
+    rep.violation(rid, f, line, what.replace(' ', '-')[:40],
+                  '%s: %s does not compute the published function%s; code: %s ; published: %s'
+                  % (f.name, what, hint, vg.show(got)[:160], vg.show(want)[:160]))
+
+
+def murmur_ref(vg, which, state, blocks, tail, n, r):
+    """Published MurmurHash3 (seed handled by the caller): returns dict phase results.
+    state: dict of input nodes; blocks: list of block word nodes; tail: function j -> byte node; n: length node; r: residue"""
+    C = vg.const
+    if which == 32:
+        C1, C2 = C(0xcc9e2d51, 32), C(0x1b873593, 32)
+
+        def mixk(k):
+            k = vg.mul(k, C1, 32)
+            k = vg.bor(vg.shl(k, C(15), 32), vg.shr(k, C(17), 32), 32)
+            return vg.mul(k, C2, 32)
+
+        def body(h, k):
+            h = vg.bxor(h, mixk(k), 32)
+            h = vg.bor(vg.shl(h, C(13), 32), vg.shr(h, C(19), 32), 32)
+            return vg.add(vg.mul(h, C(5), 32), C(0xe6546b64, 32), 32)
+
+        def final(h):
+            k = C(0, 32)
+            for j in range(r, 0, -1):
+                k = vg.bxor(k, vg.shl(tail(j - 1), C(8 * (j - 1)), 32), 32)
+            if r:
+                h = vg.bxor(h, mixk(k), 32)
+            h = vg.bxor(h, n, 32)
+            h = vg.bxor(h, vg.shr(h, C(16), 32), 32)
+            h = vg.mul(h, C(0x85ebca6b, 32), 32)
+            h = vg.bxor(h, vg.shr(h, C(13), 32), 32)
+            h = vg.mul(h, C(0xc2b2ae35, 32), 32)
+            h = vg.bxor(h, vg.shr(h, C(16), 32), 32)
+            return h
+        return body, final
+    C1, C2 = C(0x87c37b91114253d5, 64), C(0x4cf5ad432745937f, 64)
+
+    def rot(x, a):
+        return vg.bor(vg.shl(x, C(a), 64), vg.shr(x, C(64 - a), 64), 64)
+
+    def mix1(k):
+        return vg.mul(rot(vg.mul(k, C1, 64), 31), C2, 64)
+
+    def mix2(k):
+        return vg.mul(rot(vg.mul(k, C2, 64), 33), C1, 64)
+
+    def body(h1, h2, k1, k2):
+        h1 = vg.bxor(h1, mix1(k1), 64)
+        h1 = rot(h1, 27)
+        h1 = vg.add(h1, h2, 64)
+        h1 = vg.add(vg.mul(h1, C(5), 64), C(0x52dce729, 64), 64)
+        h2 = vg.bxor(h2, mix2(k2), 64)
+        h2 = rot(h2, 31)
+        h2 = vg.add(h2, h1, 64)
+        h2 = vg.add(vg.mul(h2, C(5), 64), C(0x38495ab5, 64), 64)
+        return h1, h2
+
+    def fmix(k):
+        k = vg.bxor(k, vg.shr(k, C(33), 64), 64)
+        k = vg.mul(k, C(0xff51afd7ed558ccd, 64), 64)
+        k = vg.bxor(k, vg.shr(k, C(33), 64), 64)
+        k = vg.mul(k, C(0xc4ceb9fe1a85ec53, 64), 64)
+        return vg.bxor(k, vg.shr(k, C(33), 64), 64)
+
+    def final(h1, h2):
+        k1 = k2 = C(0, 64)
+        for j in range(r, 8, -1):
+            k2 = vg.bxor(k2, vg.shl(tail(j - 1), C(8 * (j - 9)), 64), 64)
+        if r > 8:
+            h2 = vg.bxor(h2, mix2(k2), 64)
+        for j in range(min(r, 8), 0, -1):
+            k1 = vg.bxor(k1, vg.shl(tail(j - 1), C(8 * (j - 1)), 64), 64)
+        if r > 0:
+            h1 = vg.bxor(h1, mix1(k1), 64)
+        h1 = vg.bxor(h1, n, 64)
+        h2 = vg.bxor(h2, n, 64)
+        h1 = vg.add(h1, h2, 64)
+        h2 = vg.add(h2, h1, 64)
+        h1, h2 = fmix(h1), fmix(h2)
+        h1 = vg.add(h1, h2, 64)
+        h2 = vg.add(h2, h1, 64)
+        return h1, h2
+    return body, final
+
+
+def rule_murmur_vg(prog, rep, fname, which, rid):
+    f = prog.need_func(fname)
+    parts = _top_split(f)
+    rep.broken_if(parts is None, '%s: expected exactly one block loop at the top level' % fname)
+    if parts is None:
+        return
+    pre, loop, post = parts
+    ptrs, cnts = _data_params(f)
+    dname, nname = ptrs[0].get('name'), cnts[0].get('name')
+    B = 4 if which == 32 else 16
+    W = 32 if which == 32 else 64
+    init, cond, inc, body = _loop_parts(loop)
+    ctr = None
+    if inc is not None:
+        ks = _assigned_keys(inc)
+        ctr = sorted(ks)[0] if ks else None
+
+    def pre_env(fw, vg):
+        env = {}
+        for st in pre:
+            if _is_guard(st):
+                continue
+            fw.stmt(st, env)
+        return env
+
+    # ---------------- framing + block loop
+    vg = VG()
+    try:
+        fw = Forward(prog, f, vg)
+        env0 = pre_env(fw, vg)
+        n, data = vg.sym(nname), vg.sym(dname)
+        # loop bound
+        c = strip_parens(cond) if cond else {}
+        bound = fw.ev(children(c)[1], dict(env0)) if c.get('kind') == 'BinaryOperator' and c.get('opcode') == '<' else None
+        want_bound = vg.div(n, vg.const(B), 64)
+        rep.instance(rid)
+        ok = bound == want_bound and ctr is not None
+        rep.oblige(rid, ok, {'function': fname, 'check': 'block count', 'value': vg.show(bound) if bound is not None else None})
+        if not ok:
+            rep.violation(rid, f, loop.get('_line'), 'frame-block-count', '%s: the block loop runs to %s, expected %s / %d: the hash would not '
+                          'cover exactly the given bytes' % (fname, vg.show(bound) if bound is not None else canon(cond)[:40], nname, B))
+        state = sorted(k for k in _assigned_keys(body) if k in env0 and k != ctr)
+        rep.broken_if(len(state) != (1 if which == 32 else 2), '%s: hash state variables not identified (%s)' % (fname, state))
+        env = dict(env0)
+        ins = {}
+        for v in state:
+            ins[v] = env[v] = vg.sym(v + '@in')
+        if ctr:
+            env[ctr] = vg.sym('i')
+        fw.stmt(body, env)
+        i_ = vg.sym('i')
+        if which == 32:
+            refbody, _ = murmur_ref(vg, 32, None, None, None, n, 0)
+            want = [refbody(ins[state[0]], vg.idx(data, i_))]
+        else:
+            refbody, _ = murmur_ref(vg, 128, None, None, None, n, 0)
+            k1 = vg.idx(data, vg.mul(i_, vg.const(2), 64))
+            k2 = vg.idx(data, vg.add(vg.mul(i_, vg.const(2), 64), vg.const(1), 64))
+            want = list(refbody(ins[state[0]], ins[state[1]], k1, k2))
+        for v, w_ in zip(state, want):
+            rep.instance(rid)
+            ok = env[v] == w_
+            rep.oblige(rid, ok, {'function': fname, 'phase': 'block loop', 'state': v})
+            if not ok:
+                _report_mismatch(rep, rid, f, loop.get('_line'), 'block loop (%s)' % v, vg, env[v], w_)
+        # seed 0
+        for v in state:
+            rep.instance(rid)
+            ok = env0[v] == vg.const(0, W) or env0[v] == vg.const(0)
+            rep.oblige(rid, ok, {'function': fname, 'seed_of': v})
+            if not ok:
+                rep.violation(rid, f, f.line, 'seed', '%s: %s must start at seed 0, found %s' % (fname, v, vg.show(env0[v])))
+    except NotStraight as e:
+        rep.broken.append('%s block loop cannot be normalised: %s' % (fname, e))
+        return
+    # ---------------- tail + finaliser, one residue class at a time
+    for r in range(B):
+        vg = VG()
+        rep.instance(rid)
+        try:
+            fw = Forward(prog, f, vg, residue=(nname, B, r))
+            env = pre_env(fw, vg)
+            n, data = vg.sym(nname), vg.sym(dname)
+            ins = {}
+            for v in state:
+                ins[v] = env[v] = vg.sym(v + '@in')
+            ret = fw.run(post, env)
+            tailbase = vg.add(data, vg.mul(vg.div(n, vg.const(B), 64), vg.const(B), 64), 64)
+
+            def tail(j):
+                return vg.idx(tailbase, vg.const(j))
+            if which == 32:
+                _, reffinal = murmur_ref(vg, 32, None, None, tail, n, r)
+                got = [ret]
+                want = [reffinal(ins[state[0]])]
+            else:
+                _, reffinal = murmur_ref(vg, 128, None, None, tail, n, r)
+                outs = sorted(k for k in env if k.endswith('[0]') or k.endswith('[1]'))
+                outs = [k for k in outs if not k.startswith(('x[', 'tail['))]
+                got = [env.get(outs[0]) if len(outs) > 0 else None, env.get(outs[1]) if len(outs) > 1 else None]
+                want = list(reffinal(ins[state[0]], ins[state[1]]))
+            ok = all(g is not None and g == w_ for g, w_ in zip(got, want)) and len(got) == len(want)
+            rep.oblige(rid, ok, {'function': fname, 'phase': 'tail+finaliser', 'length_mod_%d' % B: r} if r in (0, 1, B - 1) else None)
+            if not ok:
+                for g, w_ in zip(got, want):
+                    if g is None:
+                        rep.violation(rid, f, f.line, 'result-%d' % r, '%s: no result produced for length %% %d == %d' % (fname, B, r))
+                    elif g != w_:
+                        _report_mismatch(rep, rid, f, (post[0].get('_line') if post else f.line), 'tail and finaliser for length %% %d == %d' % (B, r), vg, g, w_)
+                        break
+        except NotStraight as e:
+            rep.oblige(rid, False)
+            rep.broken.append('%s tail/finaliser (length %% %d == %d) cannot be normalised: %s' % (fname, B, r, e))
+            return
+
+
+def rule_fnv_vg(prog, rep, fname, basis, prime, W, rid):
+    f = prog.need_func(fname)
+    parts = _top_split(f)
+    rep.broken_if(parts is None, '%s: expected exactly one scan loop' % fname)
+    if parts is None:
+        return
+    pre, loop, post = parts
+    vg = VG()
+    try:
+        fw = Forward(prog, f, vg)
+        env0 = {}
+        for st in pre:
+            if not _is_guard(st):
+                fw.stmt(st, env0)
+        init, cond, inc, body = _loop_parts(loop)
+        state = sorted(k for k in _assigned_keys(body) if k in env0)
+        rep.broken_if(len(state) != 1, '%s: hash state variable not identified (%s)' % (fname, state))
+        if len(state) != 1:
+            return
+        h = state[0]
+        rep.instance(rid)
+        ok = env0[h] == vg.const(basis, W)
+        rep.oblige(rid, ok, {'function': fname, 'offset_basis': vg.show(env0[h])})
+        if not ok:
+            rep.violation(rid, f, f.line, 'basis', '%s: initial value %s is not the FNV offset basis %s' % (fname, vg.show(env0[h]), hex(basis)))
+        env = dict(env0)
+        hin = env[h] = vg.sym('h@in')
+        fw.stmt(body, env)
+        # the byte read: the dereference of the scanning cursor
+        byte = None
+        for x in walk(body):
+            if (x.get('kind') == 'UnaryOperator' and x.get('opcode') == '*') or x.get('kind') == 'ArraySubscriptExpr':
+                byte = fw.ev(x, dict(env0))
+        rep.instance(rid)
+        want = vg.bxor(vg.mul(hin, vg.const(prime, W), W), byte, W) if byte is not None else None
+        ok = want is not None and env[h] == want
+        rep.oblige(rid, ok, {'function': fname, 'step': vg.show(env[h])[:100]})
+        if not ok and want is not None:
+            _report_mismatch(rep, rid, f, loop.get('_line'), 'per-byte step (FNV-1: multiply by the prime, then xor the byte)', vg, env[h], want)
+        # result is the state
+        ret = fw.run(post, dict(env0, **{h: vg.sym('h@out')}))
+        rep.instance(rid)
+        ok = ret == vg.sym('h@out')
+        rep.oblige(rid, ok)
+        if not ok:
+            rep.violation(rid, f, f.line, 'result', '%s: the returned value is not the hash state' % fname)
+    except NotStraight as e:
+        rep.broken.append('%s cannot be normalised: %s' % (fname, e))
+
+
+def rule_md5_vg(prog, rep, rid='H5-md5'):
+    import math
+    rep.rule(rid, 'MD5: initial state and the complete block transform (64 steps: register rotation, message word, shift, sine-derived '
+                  'constant, round function by truth table, final additions) equal RFC 1321 as value graphs')
+    prog.unit('src/internal/md5/md5c.c')
+    finit = prog.need_func('MD5Init')
+    ftr = prog.need_func('MD5Transform', 'src/internal/md5/md5c.c')
+    want_init = [0x67452301, 0xefcdab89, 0x98badcfe, 0x10325476]
+    vg = VG()
+    try:
+        fw = Forward(prog, finit, vg)
+        env = {}
+        fw.run(children(finit.body), env)
+        pname = finit.params[0].get('name')
+        for i, v in enumerate(want_init):
+            rep.instance(rid)
+            got = env.get('%s->state[%d]' % (pname, i))
+            ok = got == vg.const(v, 32) or got == vg.const(v)
+            rep.oblige(rid, ok, {'state': i} if i == 0 else None)
+            if not ok:
+                rep.violation(rid, finit, finit.line, 'state[%d]' % i, 'MD5 initial state[%d] is %s, RFC 1321 requires %s'
+                              % (i, vg.show(got) if got is not None else None, hex(v)))
+    except NotStraight as e:
+        rep.broken.append('MD5Init cannot be normalised: %s' % e)
+    vg = VG()
+    try:
+        fw = Forward(prog, ftr, vg)
+        env = {}
+        fw.run(children(ftr.body), env)
+        sname = ftr.params[0].get('name')
+        S = vg.sym(sname)
+        st = [vg.idx(S, vg.const(i)) for i in range(4)]
+        # the message words: whatever array the transform reads (x[k]) - find its name from the code
+        xname = None
+        for x in walk(ftr.body):
+            if x.get('kind') == 'VarDecl' and qtype(x).endswith('[16]'):
+                xname = x.get('name')
+        X = [vg.idx(vg.sym(xname), vg.const(k)) for k in range(16)]
+        a, b, c, d = st
+        C = vg.const
+
+        def rotl(x, s):
+            return vg.bor(vg.shl(x, C(s), 32), vg.shr(x, C(32 - s), 32), 32)
+        SH = [[7, 12, 17, 22], [5, 9, 14, 20], [4, 11, 16, 23], [6, 10, 15, 21]]
+        for i in range(64):
+            r = i // 16
+            if r == 0:
+                fn = vg.bor(vg.band(b, c, 32), vg.band(vg.bnot(b, 32), d, 32), 32)
+                k = i
+            elif r == 1:
+                fn = vg.bor(vg.band(b, d, 32), vg.band(c, vg.bnot(d, 32), 32), 32)
+                k = (1 + 5 * i) % 16
+            elif r == 2:
+                fn = vg.bxor(vg.bxor(b, c, 32), d, 32)
+                k = (5 + 3 * i) % 16
+            else:
+                fn = vg.bxor(c, vg.bor(b, vg.bnot(d, 32), 32), 32)
+                k = (7 * i) % 16
+            t = int(abs(math.sin(i + 1)) * 4294967296) & 0xFFFFFFFF
+            tmp = vg.add(vg.add(vg.add(a, fn, 32), X[k], 32), C(t, 32), 32)
+            nb = vg.add(b, rotl(tmp, SH[r][i % 4]), 32)
+            a, b, c, d = d, nb, b, c
+        want = [vg.add(st[0], a, 32), vg.add(st[1], b, 32), vg.add(st[2], c, 32), vg.add(st[3], d, 32)]
+        for i in range(4):
+            rep.instance(rid, 16)
+            got = env.get('%s[%d]' % (sname, i))
+            ok = got is not None and got == want[i]
+            for _ in range(16):
+                rep.oblige(rid, ok)
+            rep.samples.append({'rule': rid, 'verdict': 'holds' if ok else 'VIOLATED', 'output': 'state[%d]' % i,
+                                'value_graph_nodes': len(vg.nodes)})
+            if not ok:
+                if got is None:
+                    rep.violation(rid, ftr, ftr.line, 'state[%d]' % i, 'MD5Transform does not update state[%d]' % i)
+                else:
+                    _report_mismatch(rep, rid, ftr, ftr.line, 'block transform, output word state[%d]' % i, vg, got, want[i])
+    except NotStraight as e:
+        rep.broken.append('MD5Transform cannot be normalised: %s' % e)
+
+
+def rule_c18(prog, rep):   # noqa: F811  (supersedes the event-list version above)
+    prog.unit(HASH_UNIT)
+    rule_h1(prog, rep)
+    rule_h2(prog, rep)
+    rep.rule('H3-m32', 'MurmurHash3 x86_32: block framing, loop body, and tail+finaliser for each length residue equal the published '
+                       'algorithm (value graphs by forward substitution)')
+    rule_murmur_vg(prog, rep, 'qhashmurmur3_32', 32, 'H3-m32')
+    rep.rule('H3-m128', 'MurmurHash3 x64_128: block framing, loop body, and tail+finaliser for each of the 16 length residues equal the '
+                        'published algorithm (value graphs)')
+    rule_murmur_vg(prog, rep, 'qhashmurmur3_128', 128, 'H3-m128')
+    rep.rule('H4-fnv', 'FNV-1: offset basis, per-byte step h = (h * prime) ^ byte (the shift-add form is normalised to the multiplier), result')
+    rule_fnv_vg(prog, rep, 'qhashfnv1_32', 0x811C9DC5, 0x01000193, 32, 'H4-fnv')
+    rule_fnv_vg(prog, rep, 'qhashfnv1_64', 0xCBF29CE484222325, 0x100000001B3, 64, 'H4-fnv')
+    rule_md5_vg(prog, rep)
+    rule_h6(prog, rep)
